@@ -90,6 +90,13 @@ CHECKS = {
                      "Conformance: all event sequences up to depth 4 (thorough 5) over a 16-event alphabet, ~10 400 scripts per run, client and listener, are run against "
                      "the real engines on a paused clock; every frame / call / quiescence point is judged by the observer's C12_* clauses.",
                 note="trusted: harness frame parser and lock-step quiescence detection; error *classes* compared, not exact variants"),
+    "C15": dict(technique="TLC-enumerated catalogue x state x side scripts (HostileGen.tla) executed lock-step under panic / spin / CPU / allocation monitors; traces validated by the TLA+ observer, whose legality classification of peer frames decides what must be answered by a shutdown",
+                design="4/C15",
+                text="35 hostile events (malformed frame headers and bodies, protocol violations) x 6 endpoint states x client / listener = 420 scripts, each followed by a probe. Clauses: "
+                     "C15_NoPanic (panic hook count, per quiescence point), C15_Quiesces (a settle that never returns = spin, watchdog), C15_Cpu (<= 2 s thread CPU per step), C15_Alloc "
+                     "(<= 64 MiB peak growth per step), C15_IllegalHandled (a frame the observer classifies as illegal is answered by a close / end / detach carrying an error or by "
+                     "tearing the transport down), C15_NoHang (no probe call is left pending at the end).",
+                note="model check: the connection state machine (ConnLife.tla) shows that closing on an illegal frame is compatible with C12; 'other connections unaffected' is not exercised yet"),
     "C17": dict(technique="TLC model check of channel allocation under the agreed channel-max and of heartbeat / idle time-out over a discrete clock (Limits.tla); TLC-generated channel-max pairs and timing scripts (LimitsGen.tla) executed on the paused tokio clock with 10 ms virtual steps; traces validated by the TLA+ observer",
                 design="4/C17",
                 text="MC: no begin above Min(local, remote); with remote time-out T a frame is written at least every T ticks; with local time-out L the endpoint is down exactly when nothing "
